@@ -260,6 +260,23 @@ func allocEscapes(a ssa.Value) bool {
 				if u.Val == v {
 					return true
 				}
+			case *ssa.MakeClosure:
+				// captured by a function literal that is only deferred: the cell stays
+				// private to this function and that literal (which is executed in place)
+				crefs := u.Referrers()
+				if crefs == nil {
+					return true
+				}
+				for _, cr := range *crefs {
+					if _, isDefer := cr.(*ssa.Defer); !isDefer {
+						if _, isDbg := cr.(*ssa.DebugRef); !isDbg {
+							return true
+						}
+					}
+				}
+				if fn, ok := u.Fn.(*ssa.Function); !ok || !simpleLiteral(fn) {
+					return true
+				}
 			case *ssa.FieldAddr:
 				if esc(u) {
 					return true
@@ -976,4 +993,34 @@ func (f *frame) next(x *ssa.Next, st *bstate) {
 	v := TV{T: vc.define(f.id+x.Name()+".v", vs, val), S: vs, Ty: t.Elem()}
 	f.assumeWf(st, okc, v)
 	f.setVal(x, TV{Tuple: []TV{okTV, k, v}})
+}
+
+// simpleLiteral mirrors canInlineClosure (without the depth limit): such a
+// deferred literal is always executed in place.
+func simpleLiteral(fn *ssa.Function) bool {
+	if fn.Blocks == nil || fn.Recover != nil {
+		return false
+	}
+	n := 0
+	for _, b := range fn.Blocks {
+		for _, s := range b.Succs {
+			if s.Dominates(b) {
+				return false
+			}
+		}
+		for _, in := range b.Instrs {
+			n++
+			switch in.(type) {
+			case *ssa.Go, *ssa.Defer, *ssa.Select, *ssa.Send, *ssa.RunDefers, *ssa.MakeClosure:
+				return false
+			}
+		}
+	}
+	// the literal must not let its captured cells escape either
+	for _, fv := range fn.FreeVars {
+		if allocEscapes(fv) {
+			return false
+		}
+	}
+	return n <= 80
 }
